@@ -48,7 +48,9 @@ CHECKS.update({
  "C10": ("flatten", "exploration", "runtime monitor: every public getter of the Spec passed to Flatten compared with a fresh analysis of the output over the full argument domain; last mutating phase from hook H2",
          "After every successful Flatten the passed-in analyzer is queried exhaustively over its argument domain and compared with analysis.New(output); evidence lists which phase mutated last per case.", "7/C10"),
 })
-PENDING = {"C09": "failsafe engine (W+ workload, load-fault enumeration through spec.PathLoader) is the next build step"}
+CHECKS["C09"] = ("failsafe", "fault_enumeration", "fault injection at the spec.PathLoader seam (every k-th document load of every multi-file run failed once) + crash/hang monitors (recover, hook budgets H1/H3, process-level fatal and CPU-time attribution) over hostile W+ inputs and structure-aware mutants",
+         "For every multi-file bundle and option set the fault-free load sequence is recorded and each load index is failed once: Flatten must return an error. Flatten/New/Schema are run on 22 kinds of hostile W+ features, mutated bundles, W bundles and fixtures; panics, fatal errors and budget overruns are violations; planted unresolvable refs must yield an error.", "7/C09")
+PENDING = {}
 
 def main():
     props = [json.loads(l) for l in open(os.path.join(HERE, "properties.jsonl"))]
